@@ -701,8 +701,11 @@ def h_order(ctx):
 # family tables
 # ----------------------------------------------------------------------------
 def run_family(prop, name, topo, max_updates, props=None, **extra):
+    must = extra.pop("must_cover_labels", None)
     params = {"props": sorted(props or [prop]), "topo": topo, "max_updates": max_updates}
     params.update(extra)
+    if must is not None:
+        extra["must_cover_labels"] = must
     ncomp = len(topo["comps"])
     return dict(
         name=f"run:{name}", ref="vf.sched:h_run", params=params,
